@@ -12,6 +12,7 @@ def main(tier):
     consumers.gwb_dat(P, rep, widths)
     consumers.index_guards(P, rep, "gwb-dat")
     consumers.dat_input_discipline(P, rep)
+    consumers.option_loop_discipline(P, rep, "gwb-dat", "DAT.options")
     consumers.number_parsers(P, rep)
     rep.assumptions.append("number formatting of the printed values is not decided")
     rep.explanation = ("Layout agreement between gwb-dat's request list, the library's width table, the offsets it prints and the "
